@@ -1,5 +1,6 @@
 """C12 — HTTP/3 and WebTransport stream rules are enforced with the prescribed error."""
 from rules import shared
+import witness
 
 EXPLANATION = ("Decision tables extracted from MIR (every path of the function) are compared, row by row, with reference "
                "tables transcribed from RFC 9114 / draft-ietf-webtrans-http3 (spec/h3.json): the four validate_frame tables, "
@@ -26,3 +27,5 @@ def run(ctx):
     shared.handle_bi_table(ctx, "C12-R4")
     ctx.rule("C12-R6", "Worker::run closes QUIC with error_code.to_code()")
     shared.worker_run_table(ctx, "C12-R6")
+    ctx.rule("C12-R7", "typestate: compile-fail witnesses (no read_frame on local-uni, no write_frame on remote-uni, no frame I/O on the WT stage, upgrade(session_id) only on H3)")
+    witness.run(ctx, "C12-R7", {"C12"})
